@@ -24,6 +24,8 @@ pub fn dispatch(ctx: &Ctx, rep: &mut Report) -> bool {
         "C06" => staged::c06(ctx, rep),
         "C06calibrate" => staged::calibrate(ctx, rep),
         "C10" => robust::c10(ctx, rep),
+        "C10dump" => robust::c10_dump(ctx, rep),
+        "miri-smoke" => robust::miri_smoke(ctx, rep),
         "C11" => robust::c11(ctx, rep),
         "C16" => robust::c16(ctx, rep),
         "C05" => vm::c05(ctx, rep),
